@@ -548,6 +548,8 @@ def rtb_next(rng, prev, dec, tol, mode):
         n = prev.size
         if mode == "suff":
             f = rng.uniform(0.15, 1.0 / (1.0 + 3.0 * dec), n)
+        elif mode == "barely":                          # a sufficient decrease only 2..20 times the threshold
+            f = 1.0 - dec * rng.uniform(2.0, 20.0, n) if dec <= 1e-3 else rng.uniform(0.15, 1.0 / (1.0 + 3.0 * dec), n)
         elif mode == "insuff":
             pick = rng.integers(0, 3, n)
             f = np.where(pick == 0, 1.0, np.where(pick == 1, 1.0 - rng.uniform(0, 1, n) * dec / 4, rng.uniform(1.0, 3.0, n)))
@@ -576,9 +578,14 @@ def random_rtb(ck, rng, n_seq):
     for s in range(n_seq):
         steps = int(rng.choice([1, 2, 3, 5, 6, 10, 25, 50, 300]))
         patience = int(rng.integers(1, 9))
-        dec = float(rng.choice([1e-3, 0.1, 0.5]))
+        dec = float(rng.choice([1e-3, 0.1, 0.5, 1e-9]))
         tol = float(rng.choice([1e-5, 1e-2]))
         form = str(rng.choice(["float", "t0-f64", "t0-f32", "b1-f64", "b3-f64", "b3-f32", "b2x2-f64"]))
+        if dec == 1e-9:
+            # a threshold below single-precision resolution: double-precision TENSOR losses only (what the controller is told in float64
+            # it judges in float64; a Python float is converted by the library to the default dtype, float32, and is not judged here)
+            form = str(rng.choice(["t0-f64", "b1-f64", "b3-f64", "b2x2-f64"]))
+            ck.mark("random.ReduceToBason/decreasing=1e-9")
         nb = {"float": 1, "t0-f64": 1, "t0-f32": 1, "b1-f64": 1, "b3-f64": 3, "b3-f32": 3, "b2x2-f64": 4}[form]
         length = int(rng.integers(12, 60 if ck.tier == "quick" else 200))
         kw = dict(steps=steps, patience=patience, decreasing=dec, tol=tol)
@@ -591,7 +598,7 @@ def random_rtb(ck, rng, n_seq):
         ref = RefBason(**kw)
         kw = dict(kw)
         prev = 10.0 ** rng.uniform(-1, 3, nb)
-        probs = np.array([0.45, 0.33, 0.12 if nb > 1 else 0.0, 0.03, 0.07 if nb > 1 else 0.0])
+        probs = np.array([0.30, 0.33, 0.12 if nb > 1 else 0.0, 0.03, 0.07 if nb > 1 else 0.0, 0.15])
         probs = probs / probs.sum()
         hist, was_stopped, good, modes, some_below = [], False, True, [], False
         # the caller's loss tensor may be one buffer that is overwritten in place every iteration (an accumulator): the controller
@@ -602,7 +609,7 @@ def random_rtb(ck, rng, n_seq):
             ck.mark("random.ReduceToBason/loss-buffer-reused-in-place")
             kw = dict(kw, loss_tensor="one buffer overwritten in place")
         for i in range(length):
-            mode = str(rng.choice(["suff", "insuff", "mixed", "tol", "tolmixed"], p=probs))
+            mode = str(rng.choice(["suff", "insuff", "mixed", "tol", "tolmixed", "barely"], p=probs))
             new = rtb_next(rng, prev, dec, tol, mode) if i else prev
             if form == "float":
                 x = float(new[0])
@@ -1178,7 +1185,7 @@ def _run(ck):
     for mon in ("tree.StopOnPlateau", "tree.ReduceToBason"):
         ck.require(f"{mon}/first-stop:budget", f"{mon}/first-stop:patience", f"{mon}/first-stop:budget+patience",
                    f"{mon}/verbose")
-    ck.require("driver.optimize/step-with-rejections-then-accepted", "random.ReduceToBason/loss-buffer-reused-in-place")
+    ck.require("driver.optimize/step-with-rejections-then-accepted", "random.ReduceToBason/loss-buffer-reused-in-place", "random.ReduceToBason/decreasing=1e-9")
     ck.require("driver.optimize/second-call-on-stopped-scheduler", "tree.StopOnPlateau/first-stop:rejected", "tree.ReduceToBason/first-stop:tol",
                "tree.StopOnPlateau/start64", "tree.StopOnPlateau/start0.015625", "tree.StopOnPlateau/start16384",
                "reset/after-plateau-steps", "reset/after-plateau-steps/negative-first-loss",
